@@ -617,12 +617,35 @@ def cond(g, a, b):
         _lin_parts(b) if _intlike(b) else None
     if pa is not None and pb is not None and (pa[1] or pb[1]):
         common = {t: k for t, k in pa[1].items() if pb[1].get(t) == k}
-        if common:
-            ra = _mk_lin(pa[0], {t: k for t, k in pa[1].items()
-                                 if t not in common})
-            rb = _mk_lin(pb[0], {t: k for t, k in pb[1].items()
-                                 if t not in common})
-            return add(_mk_lin(0, common), _raw_cond(g, ra, rb))
+        cc = pa[0] if pa[0] == pb[0] else 0
+        if common or cc:
+            ra = _mk_lin(pa[0] - cc, {t: k for t, k in pa[1].items()
+                                      if t not in common})
+            rb = _mk_lin(pb[0] - cc, {t: k for t, k in pb[1].items()
+                                      if t not in common})
+            return add(_mk_lin(cc, common), _raw_cond(g, ra, rb))
+    # cond(g, X | k, X) over or-sets -> X | cond(g, k, 0)
+    if (isinstance(a, Sym) and a.op == 'bitor') or \
+            (isinstance(b, Sym) and b.op == 'bitor'):
+        if _intlike(a) and _intlike(b):
+            pa_ = list(a.args) if isinstance(a, Sym) and a.op == 'bitor' \
+                else ([] if a == 0 else [a])
+            pb_ = list(b.args) if isinstance(b, Sym) and b.op == 'bitor' \
+                else ([] if b == 0 else [b])
+            common = [x for x in pa_ if any(_same(x, y) for y in pb_)]
+            if common:
+                ra = [x for x in pa_ if not any(_same(x, y)
+                                                for y in common)]
+                rb = [x for x in pb_ if not any(_same(x, y)
+                                                for y in common)]
+
+                def orall(xs):
+                    r = 0
+                    for x in xs:
+                        r = bitop('bitor', r, x)
+                    return r
+                return bitop('bitor', orall(common),
+                             _raw_cond(g, orall(ra), orall(rb)))
     return _raw_cond(g, a, b)
 
 
